@@ -219,6 +219,9 @@ func runE2ECase(c *corr.Ctx, srv *e2eServer, cs *E2ECase, name string) {
 	}
 	if r.step != "" {
 		c.Dist("e2e-failed-step-" + r.step)
+		if transient(r.err) {
+			c.Dist("e2e-failed-transient-looking")
+		}
 	}
 	checkE2E(c, cs, r)
 	if r.step == "parse" || r.step == "start" {
